@@ -311,7 +311,7 @@ fn case(rng: &mut Rng, pools: &mut Pools, rep: &mut Report, case_no: u64) {
                 }
                 if !out2.overflow {
                     let mut f = Vec::new();
-                    let opts = EOpts { expect_tl: m.runs_tl(), caller_thread: out2.caller, outer_mode: m.outer() , top_mult: 1, partial: false};
+                    let opts = EOpts { expect_tl: m.runs_tl(), caller_thread: out2.caller, outer_mode: m.outer() , top_mult: 1, partial: false, tl_mult: None};
                     let _ = e_oracle(&plan, &out2.events, &opts, &mut f);
                     for x in f {
                         if x.is("C04") || x.is("C01") || x.is("C02") {
